@@ -391,7 +391,7 @@ def fix_upto(text):
     return ''.join(out)
 
 # ---------------------------------------------------------------- main pipeline
-def build_unit(spec, tier, workdir, repo_root=None, variant_defs=(), extra_defs=(), cex_mode=False):
+def build_unit(spec, tier, workdir, repo_root=None, variant_defs=(), extra_defs=(), cex_mode=False, drop_loops=False):
     """Overlay + goto-cc + goto-instrument. Returns dict(gb=path, cmds=[...], inserted=..., sources=[...])."""
     reg = registry()
     root = repo_root or REPO
@@ -471,7 +471,7 @@ def build_unit(spec, tier, workdir, repo_root=None, variant_defs=(), extra_defs=
                 except (ov.OverlayError, OSError) as e:
                     raise Undecided('cannot extract prototype of %s from %s: %s' % (fn, cfile, e))
             decl_lines.append('%s\n%s\n;\n' % (hdr.rstrip(';'), text))
-    for (fn, ordn, kw, fp, text) in spec['loops']:
+    for (fn, ordn, kw, fp, text) in ([] if drop_loops else spec['loops']):
         rel = defined_in(fn)
         if rel is None:
             raise Undecided('loop contract for %s: function not found in sources' % fn)
@@ -549,7 +549,7 @@ def build_unit(spec, tier, workdir, repo_root=None, variant_defs=(), extra_defs=
             cmd2 += ['--enforce-contract', enforce]
         for g in replace:
             cmd2 += ['--replace-call-with-contract', g]
-        if (spec['loops'] or spec['mode'] == 'proof') and not cex_mode:
+        if (spec['loops'] or spec['mode'] == 'proof') and not cex_mode and not drop_loops:
             cmd2 += ['--apply-loop-contracts']
         cmd2 += [gb0, gb1]
         steps = [cmd2]
@@ -558,7 +558,7 @@ def build_unit(spec, tier, workdir, repo_root=None, variant_defs=(), extra_defs=
         # needs a loop-free body), then replace/enforce
         gbm = os.path.join(workdir, 'm.gb')
         steps = [['goto-instrument', '--apply-loop-contracts', gb0, gbm]]
-        if cex_mode:
+        if cex_mode or drop_loops:
             steps, gbm = [], gb0
         cmd2 = ['goto-instrument']
         if enforce and not cex_mode:
@@ -611,6 +611,55 @@ def parse_cbmc_json(out):
     return results, status, msgs
 
 
+
+def bounded_refutation(spec, tier, repo_root, variant, extra_defs, res, workdir):
+    why = res['reason']
+    try:
+        b = build_unit(spec, tier, workdir, repo_root, variant_defs=(variant[1] if variant else ()),
+                       extra_defs=extra_defs, drop_loops=True)
+    except Undecided as e:
+        res['reason'] = why + ' | bounded fallback: ' + str(e)
+        return res
+    k = spec.get('cex_unwind') or 6
+    # bound the loops of the code under test only; the loops of the contract-instrumentation library are bounded by
+    # constants and must run to completion (cutting them would silently cut every path)
+    rc0, out0, err0, w0 = run(['cbmc', '--show-loops', b['gb']], 120, 4, cwd=workdir)
+    loops = [l for l in re.findall(r'^Loop (\S+):', out0 or '', flags=re.M) if not l.startswith('__CPROVER')]
+    cmd = [c for c in cbmc_cmd(spec, b['gb'], tier)]
+    if loops:
+        cmd = cmd[:-1] + ['--unwindset', ','.join('%s:%d' % (l, k) for l in loops), cmd[-1]]
+    tmo = spec['timeout'].get(tier, 300 if tier == 'quick' else 1800)
+    rc, out, err, w = run(cmd, tmo, spec['memlimit_gb'] or 10, cwd=workdir)
+    res['solver_s'] = round(w, 2)
+    res['checker_cmd'] = 'BOUNDED FALLBACK (loop contracts do not match the restructured code): ' + ' '.join(os.path.basename(x) for x in cmd)
+    if rc is None:
+        res['reason'] = why + ' | bounded fallback timed out'
+        return res
+    results, status, msgs = parse_cbmc_json(out)
+    if results is None:
+        res['reason'] = why + ' | bounded fallback gave no result'
+        return res
+    fails = []
+    for r in results:
+        name, d = r.get('property', ''), r.get('description', '')
+        loc = r.get('sourceLocation', {})
+        clause = b['linemap'].get((os.path.basename(loc.get('file', '')), int(loc.get('line', 0) or 0)), '')
+        if r.get('status') != 'FAILURE' or 'VF_COVER' in clause or '.unwind.' in name or 'unwinding assertion' in d:
+            continue
+        fails.append(dict(name=name, description=d, status='FAILURE', clause=clause, function=loc.get('function'),
+                          line=loc.get('line'), file=os.path.basename(loc.get('file', ''))))
+    res['obligations'] = len(results)
+    res['discharged'] = 0
+    if fails:
+        res['status'] = 'fail'
+        res['failed'] = fails
+        res['bounded_refutation'] = True
+        res['reason'] = why + ' | refuted by bounded execution (unwind %d) of the restructured code under the same function contract' % k
+    else:
+        res['reason'] = why + ' | bounded fallback (unwind %d) found no refutation: undecided' % k
+    return res
+
+
 def run_unit(spec, tier, repo_root=None, variant=None, keep=None, extra_defs=()):
     """Run one unit (one variant). Returns result dict."""
     t0 = time.time()
@@ -624,6 +673,11 @@ def run_unit(spec, tier, repo_root=None, variant=None, keep=None, extra_defs=())
                            extra_defs=extra_defs)
         except Undecided as e:
             res['reason'] = str(e)
+            if 'overlay of' in str(e) and 'loop' in str(e) and spec['mode'] == 'proof' and spec['enforce']:
+                # the code was restructured: the loop contracts no longer line up, so NO PROOF is possible (undecided).
+                # A refutation still is: enforce the function contract on the new code with loops unwound (bounded).
+                # Any FAILURE found that way is a real execution of the real code violating the contract.
+                return bounded_refutation(spec, tier, repo_root, variant, extra_defs, res, workdir)
             return res
         res['inserted'] = b['inserted']
         res['build_s'] = round(b['build_s'], 2)
